@@ -21,6 +21,10 @@ EXPLANATION = (
     "formulas. R04.6: Angle.parse suffix table (deg, grad, rad, turn, unitless=degrees), constants, suffix shadowing, "
     "slice widths. R04.7: operator routing (*, @, ~, point*matrix). Not decided: floating-point error; regex behaviour on "
     "exotic white space."
+    ' R04.11: Matrix.render is followed for the four combinations (e a Length or a number, f a Length or a'
+    ' number): exactly the entries that are lengths are re-assigned from their own .value(), e against the'
+    ' width and f against the height (each falling back to relative_length only), ppi / font_size / font_height'
+    ' / viewbox passed under their own names, and self is returned.'
 )
 TECHNIQUE = (
     "static analysis (no execution): regex alternatives vs dispatch keys; argument-kind classification per branch with helper call-site expansion; centre sandwiches by partial evaluation over (centre zero?) scenarios; matrix formulas as exact rational-function identities"
@@ -30,7 +34,7 @@ ASSUMPTIONS = [
     "Floating-point round-off is not modelled; formulas are compared as exact rational functions.",
     "Length(...).value() and Angle.parse are the length/angle resolvers (their tables are checked in C12 and R04.6).",
 ]
-FLOORS = {"R04.1": 12, "R04.2": 3, "R04.3": 20, "R04.4": 10, "R04.5": 20, "R04.6": 10, "R04.8": 1, "R04.9": 1}
+FLOORS = {"R04.1": 12, "R04.2": 3, "R04.3": 20, "R04.4": 10, "R04.5": 20, "R04.6": 10, "R04.8": 1, "R04.9": 1, "R04.11": 6}
 
 
 def run(ctx):
@@ -44,6 +48,8 @@ def run(ctx):
     ctx.rule("R04.8", "an omitted optional argument defaults; it does not drop the function")
     ctx.rule("R04.10", "length arguments are resolved before they are composed")
     ctx.rule("R04.9", "every unit Length resolves is a unit the transform-argument recogniser knows")
+    ctx.rule("R04.11", "Matrix.render resolves each translation on its own: e against the width, f against the height")
+    render_translations(ctx)
     branches = dispatch(ctx)
     composition(ctx)
     branch_ops(ctx, branches)
@@ -538,12 +544,7 @@ def formulas(ctx):
     rs = ctx.fn("Matrix.reset", "R04.5")
     rvals = {s.targets[0].attr: s.value.value for s in rs.body if isinstance(s, ast.Assign) and isinstance(s.value, ast.Constant)}
     ctx.ob("R04.5", "Matrix.reset", all(float(rvals.get(k, -9)) == float(d) for k, d in zip(MS.F6, (1, 0, 0, 1, 0, 0))), str(rvals), rs.lineno, "reset must produce the identity")
-    ii = ctx.fn("Matrix.is_identity", "R04.5")
-    cmp = {}
-    for c in ast.walk(ii):
-        if isinstance(c, ast.Compare) and isinstance(c.left, ast.Attribute) and isinstance(c.ops[0], ast.Eq) and isinstance(c.comparators[0], ast.Constant):
-            cmp[c.left.attr] = c.comparators[0].value
-    ctx.ob("R04.5", "Matrix.is_identity", all(float(cmp.get(k, -9)) == float(d) for k, d in zip(MS.F6, (1, 0, 0, 1, 0, 0))), str(cmp), ii.lineno, "is_identity tests the wrong constants")
+    identity_test(ctx, "R04.5")
     # inverse: two-sided, as identities of the implemented formulas
     inv = MS.inverse_formula(ctx, "R04.5")(A)
     for nm, p in (("A*~A", mul(A, inv)), ("~A*A", mul(inv, A))):
@@ -649,3 +650,95 @@ def routing(ctx):
                 ok = any(isinstance(c, ast.Call) and isinstance(c.func, ast.Attribute) and c.func.attr == "point_in_matrix_space"
                          and ast.unparse(c.func.value) == "other" and ast.unparse(c.args[0]) == "self" for c in ast.walk(s))
         ctx.ob("R04.7", qual, ok, "", f.lineno, "point * matrix must be the matrix applied to the point")
+
+
+def identity_test(ctx, rule="R04.5"):
+    """Matrix.is_identity compares each of the six entries with the identity's: spelled out (self.a == 1 and ...), or as
+    all(v == i for v, i in zip(<the six entries>, <six constants>)) - zip stops at the shorter operand, so a five-entry
+    reference silently leaves f untested."""
+    ii = ctx.fn("Matrix.is_identity", rule)
+    cmp = {}
+    for c in ast.walk(ii):
+        if isinstance(c, ast.Compare) and isinstance(c.left, ast.Attribute) and isinstance(c.ops[0], ast.Eq) and isinstance(c.comparators[0], ast.Constant):
+            cmp[c.left.attr] = c.comparators[0].value
+    if not cmp:
+        for c in ast.walk(ii):
+            if isinstance(c, ast.Call) and isinstance(c.func, ast.Name) and c.func.id == "all" and len(c.args) == 1 and isinstance(c.args[0], (ast.GeneratorExp, ast.ListComp)) \
+                    and len(c.args[0].generators) == 1 and not c.args[0].generators[0].ifs:
+                g = c.args[0].generators[0]
+                e = c.args[0].elt
+                z = g.iter
+                if isinstance(z, ast.Call) and isinstance(z.func, ast.Name) and z.func.id == "zip" and len(z.args) == 2 and isinstance(g.target, ast.Tuple) and len(g.target.elts) == 2 \
+                        and isinstance(e, ast.Compare) and len(e.ops) == 1 and isinstance(e.ops[0], ast.Eq) \
+                        and {ast.unparse(e.left), ast.unparse(e.comparators[0])} == {ast.unparse(t) for t in g.target.elts}:
+                    a, b = z.args
+                    if isinstance(a, (ast.Tuple, ast.List)) and all(isinstance(x, ast.Constant) for x in a.elts):
+                        a, b = b, a
+                    if isinstance(b, (ast.Tuple, ast.List)) and all(isinstance(x, ast.Constant) for x in b.elts):
+                        if isinstance(a, ast.Name) and a.id == "self":
+                            order = MS.ctor_fields(ctx, rule)[1]  # the order in which a matrix unpacks / is indexed
+                            names = list(order)
+                        elif isinstance(a, (ast.Tuple, ast.List)):
+                            names = [x.attr if isinstance(x, ast.Attribute) else None for x in a.elts]
+                        else:
+                            names = []
+                        for nm, k in zip(names, b.elts):  # zip: the shorter one decides
+                            if nm is not None:
+                                cmp[nm] = k.value
+    ctx.ob(rule, "Matrix.is_identity", all(float(cmp.get(k, -9)) == float(d) for k, d in zip(MS.F6, (1, 0, 0, 1, 0, 0))), str(cmp), ii.lineno,
+           "is_identity must compare all six entries with (1, 0, 0, 1, 0, 0): an entry left out makes a non-identity matrix count as the identity, and every decomposition that asks `is_identity()` before applying the transform drops it")
+
+
+def render_translations(ctx):
+    """Lengths in a transform string are resolved when the matrix is rendered.  Matrix.render is followed for the four
+    combinations (e is a Length?, f is a Length?): exactly the entries that are lengths are re-assigned from their own
+    .value(...), e with the viewport width (else relative_length) as its reference and f with the height, the rest of the
+    context passed slot by slot, and the matrix is returned."""
+    from ..typedispatch import follow
+
+    fn = ctx.fn("Matrix.render", "R04.11")
+    params = [a.arg for a in fn.args.args]
+    for e_len in (True, False):
+        for f_len in (True, False):
+            def extra(t, e_len=e_len, f_len=f_len):
+                if isinstance(t, ast.Call) and isinstance(t.func, ast.Name) and t.func.id == "isinstance" and len(t.args) == 2 and attr_chain(t.args[0]) in (["self", "e"], ["self", "f"]):
+                    names = {x.id for x in (t.args[1].elts if isinstance(t.args[1], ast.Tuple) else [t.args[1]]) if isinstance(x, ast.Name)}
+                    is_len = e_len if attr_chain(t.args[0])[1] == "e" else f_len
+                    if names == {"Length"}:
+                        return is_len
+                    if names and names <= {"int", "float"}:
+                        return not is_len
+                return None
+
+            pth = follow(ctx, "R04.11", fn, {}, extra=extra)
+            cons = "Matrix.render[e %s, f %s]" % ("a length" if e_len else "a number", "a length" if f_len else "a number")
+            stores = {}
+            for st in pth.stmts:
+                for n in ast.walk(st):
+                    if isinstance(n, ast.Assign) and len(n.targets) == 1 and attr_chain(n.targets[0]) in (["self", "e"], ["self", "f"]):
+                        stores.setdefault(attr_chain(n.targets[0])[1], []).append(n)
+            ok = pth.exit == "return" and isinstance(pth.value, ast.Name) and pth.value.id == "self"
+            detail = []
+            for fld, is_len, dim in (("e", e_len, "width"), ("f", f_len, "height")):
+                got = stores.get(fld, [])
+                if not is_len:
+                    ok = ok and not got
+                    detail.append("%s %s" % (fld, "left alone" if not got else "re-assigned"))
+                    continue
+                good = False
+                for a in got:
+                    v = a.value
+                    if isinstance(v, ast.Call) and isinstance(v.func, ast.Attribute) and v.func.attr == "value" and attr_chain(v.func.value) == ["self", fld]:
+                        kw = {k.arg: k.value for k in v.keywords if k.arg}
+                        ref = kw.get("relative_length")
+                        plumb = all(isinstance(kw.get(p_), ast.Name) and kw[p_].id == p_ for p_ in ("ppi", "font_size", "font_height", "viewbox") if p_ in params)
+                        good = isinstance(ref, ast.Name) and ref.id == dim and plumb
+                detail.append("%s %s" % (fld, "resolved against %s" % dim if good else "not resolved (or against the wrong reference)"))
+                ok = ok and good and len(got) == 1
+            ctx.ob("R04.11", cons, ok, "; ".join(detail) + "; exit %s" % pth.exit, fn.lineno,
+                   "an entry that is a Length must be resolved whatever the other entry is: translate(0, 1in) has a plain e and a unit-bearing f")
+    # the fallback of the reference: width <- relative_length only when width is missing (same for height)
+    for dim in ("width", "height"):
+        fb = [st for st in ast.walk(fn) if isinstance(st, ast.Assign) and len(st.targets) == 1 and isinstance(st.targets[0], ast.Name) and st.targets[0].id == dim]
+        ok = all(isinstance(st.value, ast.Name) and st.value.id == "relative_length" for st in fb)
+        ctx.ob("R04.11", "Matrix.render[%s fallback]" % dim, ok, "; ".join(ast.unparse(st) for st in fb) or "none", fn.lineno, "a missing %s falls back to relative_length, nothing else" % dim)
